@@ -18,7 +18,8 @@ RULE = ("grammars Sentence(SeqOf(tok_1 .. tok_n)), tok = [RightTrim mr] [LeftTri
         "{space, tab, LF, FF} plus CRLF, lone CR and non-whitespace intruders in the left gap and in the right gap), every one "
         "of the 625 assignments for n = 2 with sampled gap strings, sampled assignments for n = 3, random longer gaps, gaps at "
         "end of file, a stream whose input does not match a token, and a stream of non-token operands (SeqTry / Any under a "
-        "trim) where the context's furthest error lies behind the whitespace error; base offsets 1, 2, 7. "
+        "trim) where the context's furthest error lies behind the whitespace error, and LeftTrim(SeqOf(a, b), m) (an operand "
+        "that fails behind its start); base offsets 1, 2, 7. "
         "non-trivial = some gap of the input is non-empty; distinct = distinct case text")
 TRUSTED = ["Coq 8.16.1 kernel and vm_compute",
            "hand-written engine model coq/Engine.v + coq/Grammar.v (skip_ws) tied to the code by this differential run",
@@ -162,6 +163,19 @@ def ctx_further(rng):
     return out
 
 
+def words(rng, quick):
+    """LeftTrim(SeqOf(a, b), m): an operand that can fail behind its start (the word breaks off after its first rune)"""
+    out = []
+    gaps = ws_strings(1 if quick else 2) + [[SP, LF], [CR, LF], [X]] + [rand_gap(rng) for _ in range(3 if quick else 12)]
+    for m in MODES:
+        for g in gaps:
+            for tail in ([A, B], [A, 99], [A], [B, B]):
+                root = ('ltrim', m, G.seqof(('rune', A), ('rune', B)))
+                out.append((G.case_text([], root, g + tail, offset=rng.choice([1, 2, 7]), flags=0),
+                            {"stream": "word-under-lefttrim", "nontrivial": len(g) > 0, "k3": False, "outcome": "n/a"}))
+    return out
+
+
 def generate(rng, tier):
     quick = tier == "quick"
     out = []
@@ -170,8 +184,10 @@ def generate(rng, tier):
     for ml in SIDES:
         for mr in SIDES:
             t = [(ml, A, mr)]
-            for g in strings:
+            few = [[], [SP], [LF], [CR, LF], [X]]
+            for g in (strings if ml is not None or not quick else few):      # an untrimmed side: a few strings suffice
                 out.append(mk(t, [g, rng.choice(SMALL)], "one-token-left-gap", rng))
+            for g in (strings if mr is not None or not quick else few):
                 out.append(mk(t, [rng.choice(SMALL), g], "one-token-right-gap", rng))
             if not quick:
                 for g1 in ws_strings(2) + EXTRA:
@@ -220,6 +236,7 @@ def generate(rng, tier):
             data = data + [rng.choice([A, B])]
         out.append(mk(t, gaps, "mismatch", rng, data=data))
     out += ctx_further(rng)
+    out += words(rng, quick)
     if not quick:
         out += ctx_further(rng) + ctx_further(rng)
     return out
@@ -250,16 +267,19 @@ def distribution(cases, obs):
 MANIFEST = {
     'technique': ('Rocq proofs about the engine model (skip_ws = byte-level run specification; LeftTrim/RightTrim accept/reject '
                   'tables; induction over token sequences through seq_step/alts_loop; parse_top error preference) + differential '
-                  'run of the model (vm_compute) against the real combinators, with the property itself (coq/Trim.v spec_tokens) '
-                  'evaluated on every observation of the implementation'),
-    'text': ('Props/C10.v: C10_skip_run (SkipWhitespaces = maximal run of {space, tab, LF, FF} and the mode table with error '
-             'positions), C10_skip_ws_reader (the engine model\'s skip_ws equals the C09 Reader model), C10_lefttrim_spec / '
-             'C10_righttrim_spec (accept/reject tables incl. generalisation to any operand), C10_tokens_code (Parse(Sentence(SeqOf '
-             'tokens)) = code_tokens for every token list and input), C10_tokens_spec (= the property\'s spec_tokens when no token '
-             'has the K3 shape), C10_tokens_spec_refuted (K3 witness), C10_transparent (accepted tokens stand at their own '
-             'positions; two whitespace variants give the same token list with starts shifted by the inserted lengths), '
-             'C10_ws_error_wins. The check runs token sequences x mode assignments x gap strings through the real parsley.Parse '
-             'and requires model = implementation and spec_tokens = implementation.'),
+                  'run of the model (vm_compute) against the real combinators, with the property itself (coq/Trim.v spec_tokens, '
+                  'spec_lefttrim_word, ws_wins_oracle) evaluated on every observation of the implementation'),
+    'text': ('Props/C10.v: C10_skip_run / C10_run_unique / C10_skip_ws_spec (SkipWhitespaces = end of the maximal run of {space, '
+             'tab, LF, FF} and the mode table with the three error positions), C10_skip_ws_reader (the engine model\'s skip_ws = '
+             'the C09 Reader model), C10_lefttrim_spec / C10_righttrim_spec (accept/reject tables for a rune), C10_lefttrim_table / '
+             'C10_righttrim_table_node / C10_righttrim_table_err (any operand), C10_lefttrim_word (an operand failing behind its '
+             'start: the whitespace error wins), C10_tokens_code (Parse(Sentence(SeqOf tokens)) = code_parse for EVERY token list '
+             'and input), C10_tokens_spec_partial (= the property\'s spec_parse when no token has the K3 shape), '
+             'C10_tokens_spec_refuted (K3 witness), C10_transparent / C10_transparent_top (accepted tokens stand at their own '
+             'runes; two whitespace variants give the same token list, starts shifted by the inserted lengths), '
+             'C10_trim_any_whitespace (Trim tokens accept every whitespace string in every gap), C10_ws_error_wins. The check runs '
+             'token sequences x mode assignments x gap strings through the real parsley.Parse and requires model = '
+             'implementation and specification = implementation.'),
     'note': ('Trusted: Coq kernel + vm_compute; the hand-written engine model (validated by this differential run); FileSet.v '
              'for line:column rendering; Go driver; ASCII runes; offsets >= 1. Known finding K3: RightTrim relocates the '
              'whitespace error of an inner LeftTrim (WsNone/WsSpaces) to the end of the run.'),
